@@ -95,6 +95,10 @@ def run(ctx):
     verdict = cv.validate(ctx, recs)
     c17.judge(ctx, "C16", recs, verdict)
     ctx.notes["c2s_calls"] = len(recs)
+    # whole sessions against System.tla: this check judges the rejections at the sm_to_ssc event
+    from . import system_common as sysc
+    sessions, verdict = sysc.run_sessions(ctx, 150 if ctx.quick else 3000, ctx.seed + 16)
+    sysc.judge(ctx, "C16", sessions, verdict, sysc.CONVERT_OPS, "conversion inside a session")
     ctx.sample({"c2s": {"source": cv.show(recs[2]["src"]), "outcome": recs[2]["st"], "timing_same": recs[2]["timing"], "notes_same": recs[2]["notes"]}})
     ctx.exhaustive = True
     ctx.rule = ("S2C: every case of the bounded MC_Convert sm2ssc configuration (timing strings incl. negative values, FREEZES / ANIMATIONS "
